@@ -896,12 +896,14 @@ class Arm(Robot):
         new_home = fsr.localToGlobal(self._end_effector_home, old_to_new)
         self._end_effector_home = new_home
         self._helper_determine_eef_to_last_joint()
+        self.FK(self._theta)
 
     #Converted to Python - Joshua
     def restoreOriginalEE(self) -> None:
         """Restore the original End effector configuration of the arm."""
         self._end_effector_home = self._original_end_effector_home
         self._helper_determine_eef_to_last_joint()
+        self.FK(self._theta)
 
     def getScrewList(self) -> 'np.ndarray[float]':
         """
